@@ -17,7 +17,7 @@ var (
 	c04Left  = []string{"LEFT JOIN", "LEFT HASH_JOIN", "PARALLEL LEFT JOIN", "PARALLEL LEFT HASH_JOIN"}
 	c04Right = []string{"RIGHT JOIN", "RIGHT HASH_JOIN", "PARALLEL RIGHT JOIN", "PARALLEL RIGHT HASH_JOIN"}
 	c04Floor = []string{"type.inner", "type.left", "type.right", "on.equi", "on.nonequi", "on.or", "on.multi", "on.flipped", "keys.str", "keys.num", "dupkeys",
-		"left.empty", "right.empty", "unmatched.left", "unmatched.right", "meta.permute", "meta.flip", "keys.mixed-kind"}
+		"left.empty", "right.empty", "unmatched.left", "unmatched.right", "meta.permute", "meta.flip", "keys.mixed-kind", "alias.prefix"}
 )
 
 func init() {
@@ -304,8 +304,23 @@ func c04Diff(c *fw.Case, par bool) {
 	ro := gen.RenderOpts{}
 	onSQL := gen.RenderPred(on, ro)
 	evals := 0
+	// alias names: also pairs in which one alias is a prefix of the other
+	aliases := gen.Pick(c.R, [][2]string{{"x", "y"}, {"x", "y"}, {"o", "ol"}, {"ol", "o"}, {"a", "ab"}, {"t1", "t"}, {"L", "R"}})
+	if force == "alias.prefix" {
+		aliases = gen.Pick(c.R, [][2]string{{"o", "ol"}, {"ol", "o"}, {"t1", "t"}})
+	}
+	if strings.HasPrefix(aliases[0], aliases[1]) || strings.HasPrefix(aliases[1], aliases[0]) {
+		feats = append(feats, "alias.prefix")
+	}
+	if aliases != [2]string{"x", "y"} {
+		for i, w := range want {
+			m := w.(map[string]any)
+			want[i] = map[string]any{aliases[0]: m["x"], aliases[1]: m["y"]}
+		}
+	}
+	respellAliases := strings.NewReplacer("x.", aliases[0]+".", "y.", aliases[1]+".")
 	runOne := func(strategy, onText, what string, reps int) bool {
-		sql := "SELECT * FROM l x " + strategy + " r y ON " + onText
+		sql := "SELECT * FROM l " + aliases[0] + " " + strategy + " r " + aliases[1] + " ON " + respellAliases.Replace(onText)
 		for rep := 0; rep < reps; rep++ {
 			doc := DocOf(l, r)
 			o := Run(doc, sql)
